@@ -107,7 +107,7 @@ def families(tier):
         ("full4", dict(full, Scripts="{<<>>}", MaxSteps=4), None),
         ("rich2", dict(full, Scripts=rich, MaxSteps=2), None),
         ("core4", dict(core, Scripts="{" + S_MEM_A + "}", MaxSteps=4), None),
-        ("deep", dict(full, D="1..3", Scripts="{<<>>}", MaxSteps=14), ("num=1500", 15)),
+        ("deep", dict(full, D="1..3", Scripts="{<<>>}", MaxSteps=14), ("num=300", 15)),
     ]
 
 
@@ -121,10 +121,7 @@ def gen_run(name, c, sim, seed, workers=None):
         workers = 1                                  # one simulation worker: the run is deterministic for a seed
     r = lib.run_tlc_mc("DatasetStoreGen", defs, wd, constants={"MaxSteps": c["MaxSteps"], "Nested": c["Nested"], "Canon": "TRUE"},
                        init="GInit", next_="GNext", constraints=["Emit"], invariants=["TypeOK"], timeout=1500, workers=workers, **kw)
-    if sim and r.rc != 0 and r.error and "rc=" not in (r.error or ""):
-        lib.require_ok(r, f"DatasetStoreGen/{name}")
-    elif not sim:
-        lib.require_ok(r, f"DatasetStoreGen/{name}")
+    lib.require_ok(r, f"DatasetStoreGen/{name}")
     seen, out = set(), []
     for j in r.json_lines:
         key = json.dumps(j["hist"], sort_keys=True)
@@ -212,11 +209,16 @@ def execute(groups, nproc):
             for r in dsreplay.run_chunk(t):
                 out[r["id"]] = r
         return out
+    import gc
+    V.pools()                       # built once, inherited by the workers
+    gc.collect()
+    gc.freeze()                     # keep the garbage collector from touching (and copying) the inherited heap in the workers
     ctx = mp.get_context("fork")
     with ctx.Pool(nproc) as pool:
         for res in pool.imap_unordered(dsreplay.run_chunk, tasks):
             for r in res:
                 out[r["id"]] = r
+    gc.unfreeze()
     return out
 
 
